@@ -105,10 +105,50 @@ def selftest():
 # ----------------------------------------------------------------------------------------------
 # independent encoders (from the property text / docs/signer-authorization.md)
 def codes(x):
-    """text or bytes -> list of 0..255 for TLC"""
+    """text -> list of code points, bytes -> list of 0..255, for TLC"""
     if isinstance(x, str):
-        x = x.encode("latin-1", errors="replace")
+        return [ord(c) for c in x]
     return list(bytes(x))
+
+
+SPELLINGS = ("upper", "mixed", "p0x", "p0X", "lead_ws", "trail_ws", "inner_ws", "trail_nl", "split_pair",
+             "odd0", "nonascii")
+_OTHER_DIGITS = {"0": "\u0660\uff10", "1": "\u0661\uff11", "2": "\u0662\uff12", "3": "\u0663\uff13",
+                 "4": "\u0664\uff14", "5": "\u0665\uff15", "6": "\u0666\uff16", "7": "\u0667\uff17",
+                 "8": "\u0668\uff18", "9": "\u0669\uff19", "a": "\uff41", "b": "\uff42", "c": "\uff43",
+                 "d": "\uff44", "e": "\uff45", "f": "\uff46"}
+
+
+def spell(hx, sp, rng):
+    """an unusual spelling of the plain lower-case hex text `hx` (same names as spec/SignerAuth.tla)"""
+    ws = rng.choice((" ", " ", "\t", "\n", "\r", "  "))
+    if sp == "upper":
+        return hx.upper()
+    if sp == "mixed":
+        t = "".join(c.upper() if rng.random() < 0.5 else c for c in hx)
+        return t if t not in (hx, hx.upper()) else hx[:len(hx) // 2].upper() + hx[len(hx) // 2:]
+    if sp == "p0x":
+        return "0x" + hx
+    if sp == "p0X":
+        return "0X" + hx
+    if sp == "lead_ws":
+        return ws + hx
+    if sp == "trail_ws":
+        return hx + rng.choice((" ", "\t", "  ", " \t"))
+    if sp == "inner_ws":
+        i = 2 * rng.randrange(1, len(hx) // 2)
+        return hx[:i] + ws + hx[i:]
+    if sp == "trail_nl":
+        return hx + rng.choice(("\n", "\r\n"))
+    if sp == "split_pair":
+        i = 2 * rng.randrange(0, len(hx) // 2) + 1
+        return hx[:i] + " " + hx[i:]
+    if sp == "odd0":
+        return rng.choice((hx + "0", "0" + hx))
+    if sp == "nonascii":
+        i = rng.randrange(len(hx))
+        return hx[:i] + rng.choice(_OTHER_DIGITS[hx[i]]) + hx[i + 1:]
+    raise ValueError(sp)
 
 
 def msg_text(h, n):
@@ -621,7 +661,7 @@ def authorize(path, device, via):
     if via == "admin" and ok and "Signer authorized" not in out.getvalue():
         ok = False
     evs = apdu_events(world)
-    evs.append({"k": "outcome", "authorized": "t" if ok else "f"})
+    evs.append({"k": "outcome", "authorized": "t" if ok else "f", "exc": exc or "none"})
     return evs, exc
 
 
@@ -633,6 +673,7 @@ def authorize_object(obj, device):
     Platform.set(Platform.LEDGER)
     world = World(device, "hid")
     install(world)
+    exc = None
     try:
         d = HSM2Dongle(False)
         d.connect()
@@ -640,10 +681,10 @@ def authorize_object(obj, device):
             ok = d.authorize_signer(obj) is True
         finally:
             d.disconnect()
-    except Exception:
-        ok = False
+    except Exception as e:
+        ok, exc = False, type(e).__name__
     evs = apdu_events(world)
-    evs.append({"k": "outcome", "authorized": "t" if ok else "f"})
+    evs.append({"k": "outcome", "authorized": "t" if ok else "f", "exc": exc or "none"})
     return evs
 
 
